@@ -143,6 +143,7 @@ func registerMoreIntrinsics() {
 		return ret1(IfaceV{typ: types.NewPointer(tn.Type()), val: p})
 	}
 	redirects["k8s.io/apimachinery/pkg/util/wait.PollUntilContextTimeout"] = "M_wait_PollUntilContextTimeout"
+	redirects["k8s.io/apimachinery/pkg/util/wait.ExponentialBackoffWithContext"] = "M_wait_ExponentialBackoffWithContext"
 	redirects["context.WithCancel"] = "M_ctx_WithCancel"
 	redirects["context.WithTimeout"] = "M_ctx_WithTimeout"
 	redirects["context.WithDeadline"] = "M_ctx_WithDeadline"
